@@ -1,4 +1,18 @@
 // K-CLONE (C16, C17), K-DROP (C04, C03), K-KEYS (C02 borrowed lookups), K-FROM (C05 conversions)
+// Non-blocking check: Kani's `assert!` assumes its condition afterwards, so the first failing conjunct of a contract
+// would hide every later one on the same path (and with it the verdicts of the other properties that harness serves).
+// `ck!` performs the check on a nondeterministically chosen side branch, so every conjunct is reported independently.
+macro_rules! ck {
+    ($c:expr, $m:literal) => {
+        if kani::any::<bool>() {
+            assert!($c, $m);
+        }
+    };
+    ($c:expr) => {
+        assert!($c)
+    };
+}
+
 use super::harness::{any_abs, any_lru, build, Lru, N};
 use crate::verif_hooks::gen::build_rev;
 use super::*;
@@ -17,10 +31,10 @@ fn clone_is_identical_then_independent() {
     kani::cover!(pre.n == 0, "clone: empty");
     let mut c = l.clone();
     let cv = c.verif_abs();
-    assert!(c.verif_wf(), "[C03.wf][C16.wf] a clone is a well-formed cache");
-    assert!(cv.cap == pre.cap && cv.same_map(&pre), "[C16.contents] a clone has the same capacity, keys and values");
-    assert!(cv == pre, "[C16.order][C17.maporder] a clone has the same recency order, whatever order the index iterates in");
-    assert!(l.verif_abs() == pre && l.verif_wf(), "[C16.independent][C13.readonly] cloning leaves the original unchanged");
+    ck!(c.verif_wf(), "[C03.wf][C16.wf] a clone is a well-formed cache");
+    ck!(cv.cap == pre.cap && cv.same_map(&pre), "[C16.contents] a clone has the same capacity, keys and values");
+    ck!(cv == pre, "[C16.order][C17.maporder] a clone has the same recency order, whatever order the index iterates in");
+    ck!(l.verif_abs() == pre && l.verif_wf(), "[C16.independent][C13.readonly] cloning leaves the original unchanged");
     // independence: no node is shared
     let (a, an, _) = l.verif_nodes();
     let (b, bn, _) = c.verif_nodes();
@@ -29,7 +43,7 @@ fn clone_is_identical_then_independent() {
         let mut j = 0;
         while j < NMAX {
             if i < an && j < bn {
-                assert!(a[i] != b[j], "[C16.independent][C03.alias] original and clone share no node");
+                ck!(a[i] != b[j], "[C16.independent][C03.alias] original and clone share no node");
             }
             j += 1;
         }
@@ -41,9 +55,9 @@ fn clone_is_identical_then_independent() {
     let _ = c.put(k, v);
     let _ = c.remove_lru();
     drop(c);
-    assert!(l.verif_abs() == pre && l.verif_wf(), "[C16.independent] operations on the clone, and dropping it, never affect the original");
+    ck!(l.verif_abs() == pre && l.verif_wf(), "[C16.independent] operations on the clone, and dropping it, never affect the original");
     let j: u8 = kani::any();
-    assert!(l.peek(&j).copied() == pre.val_of(j), "[C16.independent][C03.uaf] the original still answers lookups from live memory after the clone is gone");
+    ck!(l.peek(&j).copied() == pre.val_of(j), "[C16.independent][C03.uaf] the original still answers lookups from live memory after the clone is gone");
     drop(l);
 }
 
@@ -145,7 +159,7 @@ fn tracked_put_leakcheck() {
         let r = l.put(Tk(k), Tv(v));
         // cannot give an equal key a different id (Eq is by id), so account for the duplicate by hand:
         // the stored key object and the argument are indistinguishable; exactly one of them must have been dropped
-        assert!(drops(k) == 1, "[C04.once] on an update the surplus key object is dropped exactly once, the other stays");
+        ck!(drops(k) == 1, "[C04.once] on an update the surplus key object is dropped exactly once, the other stays");
         crate::verif_hooks::gen::set_drops(k, 0);
         r
     } else {
@@ -153,9 +167,9 @@ fn tracked_put_leakcheck() {
     };
     drop(r);
     let post = l.verif_abs();
-    assert!(conservation(created, &post), "[C04.once] after put every object is retained, or was handed back, or dropped exactly once");
+    ck!(conservation(created, &post), "[C04.once] after put every object is retained, or was handed back, or dropped exactly once");
     drop(l);
-    assert!(all_released(created), "[C04.drop] dropping the cache releases every retained key and value exactly once");
+    ck!(all_released(created), "[C04.drop] dropping the cache releases every retained key and value exactly once");
 }
 
 #[kani::proof]
@@ -186,13 +200,13 @@ fn tracked_remove_family_leakcheck() {
         crate::verif_hooks::gen::set_drops(k, drops(k) - 1);
     }
     let post = l.verif_abs();
-    assert!(l.verif_wf(), "[C03.wf] list well formed after remove/remove_lru/purge/resize");
-    assert!(conservation(created, &post), "[C04.once] remove/remove_lru/purge/resize release exactly the departing keys and values, once");
+    ck!(l.verif_wf(), "[C03.wf] list well formed after remove/remove_lru/purge/resize");
+    ck!(conservation(created, &post), "[C04.once] remove/remove_lru/purge/resize release exactly the departing keys and values, once");
     if which == 2 {
-        assert!(post.n == 0 && all_released(created), "[C04.purge] purge releases every retained key and value");
+        ck!(post.n == 0 && all_released(created), "[C04.purge] purge releases every retained key and value");
     }
     drop(l);
-    assert!(all_released(created), "[C04.drop] dropping the cache releases everything still retained exactly once");
+    ck!(all_released(created), "[C04.drop] dropping the cache releases everything still retained exactly once");
 }
 
 #[kani::proof]
@@ -211,9 +225,9 @@ fn tracked_reads_then_drop_leakcheck() {
         core::mem::forget(probe);
     }
     let post = l.verif_abs();
-    assert!(conservation(created, &post) && post.same_map(&pre), "[C04.once] lookups drop nothing");
+    ck!(conservation(created, &post) && post.same_map(&pre), "[C04.once] lookups drop nothing");
     drop(l);
-    assert!(all_released(created), "[C04.drop] dropping the cache at an arbitrary point releases every key and value exactly once");
+    ck!(all_released(created), "[C04.drop] dropping the cache at an arbitrary point releases every key and value exactly once");
 }
 
 // ------------------------------------------------------------------ borrowed-key lookups
@@ -229,15 +243,15 @@ fn borrowed_lookup_box_key() {
     let q: u8 = kani::any();
     kani::cover!(a.has(q), "borrowed lookup: hit");
     kani::cover!(!a.has(q), "borrowed lookup: miss");
-    assert!(l.contains(&q) == a.has(q), "[C02.borrow] contains(&Q) agrees with residency of the owned key");
-    assert!(l.peek(&q).copied() == a.val_of(q), "[C02.borrow] peek(&Q) returns the value stored under the owned key");
-    assert!(l.peek_mut(&q).map(|v| *v) == a.val_of(q), "[C02.borrow] peek_mut(&Q) returns the value stored under the owned key");
-    assert!(l.contains(&Box::new(q)) == a.has(q), "[C02.borrow] lookup by the owned key form agrees");
+    ck!(l.contains(&q) == a.has(q), "[C02.borrow] contains(&Q) agrees with residency of the owned key");
+    ck!(l.peek(&q).copied() == a.val_of(q), "[C02.borrow] peek(&Q) returns the value stored under the owned key");
+    ck!(l.peek_mut(&q).map(|v| *v) == a.val_of(q), "[C02.borrow] peek_mut(&Q) returns the value stored under the owned key");
+    ck!(l.contains(&Box::new(q)) == a.has(q), "[C02.borrow] lookup by the owned key form agrees");
     let g = l.get(&q).copied();
-    assert!(g == a.val_of(q), "[C02.borrow] get(&Q) returns the value stored under the owned key");
+    ck!(g == a.val_of(q), "[C02.borrow] get(&Q) returns the value stored under the owned key");
     let r = l.remove(&q);
-    assert!(r == a.val_of(q) && !l.contains(&q), "[C02.borrow] remove(&Q) removes exactly the owned key's entry");
-    assert!(l.verif_wf(), "[C03.wf] list well formed after borrowed-key operations");
+    ck!(r == a.val_of(q) && !l.contains(&q), "[C02.borrow] remove(&Q) removes exactly the owned key's entry");
+    ck!(l.verif_wf(), "[C03.wf] list well formed after borrowed-key operations");
     drop(l);
 }
 
@@ -261,11 +275,11 @@ fn borrowed_lookup_unsized_q() {
     let want = if q1 == tag { a.val_of(q0) } else { None };
     kani::cover!(want.is_some(), "unsized borrowed lookup: hit");
     kani::cover!(a.has(q0) && q1 != tag, "unsized borrowed lookup: near miss");
-    assert!(l.contains(&q[..]) == want.is_some(), "[C02.borrow] contains(&[u8]) agrees with residency of the array key");
-    assert!(l.peek(&q[..]).copied() == want, "[C02.borrow] peek(&[u8]) returns the stored value");
-    assert!(l.get(&q[..]).copied() == want, "[C02.borrow] get(&[u8]) returns the stored value");
-    assert!(l.remove(&q[..]) == want, "[C02.borrow] remove(&[u8]) hands back the stored value");
-    assert!(l.verif_wf(), "[C03.wf] list well formed after unsized borrowed-key operations");
+    ck!(l.contains(&q[..]) == want.is_some(), "[C02.borrow] contains(&[u8]) agrees with residency of the array key");
+    ck!(l.peek(&q[..]).copied() == want, "[C02.borrow] peek(&[u8]) returns the stored value");
+    ck!(l.get(&q[..]).copied() == want, "[C02.borrow] get(&[u8]) returns the stored value");
+    ck!(l.remove(&q[..]) == want, "[C02.borrow] remove(&[u8]) hands back the stored value");
+    ck!(l.verif_wf(), "[C03.wf] list well formed after unsized borrowed-key operations");
     drop(l);
 }
 
@@ -282,7 +296,7 @@ fn two_run_same_history_same_behaviour() {
     let mut y: Lru = build_rev(&a, PoisonHasher, None);
     let (bx, wx) = x.verif_check();
     let (by, wy) = y.verif_check();
-    assert!(wx && wy && bx == a && by == a, "[C03.builder] both builders produce the intended well-formed state");
+    ck!(wx && wy && bx == a && by == a, "[C03.builder] both builders produce the intended well-formed state");
     let k: u8 = kani::any();
     let v: u8 = kani::any();
     let c: usize = kani::any();
@@ -298,12 +312,12 @@ fn two_run_same_history_same_behaviour() {
         3 => x.remove_lru() == y.remove_lru(),
         _ => x.resize(c) == y.resize(c),
     };
-    assert!(same, "[C17.tworun] return values do not depend on allocation addresses or index slot order");
+    ck!(same, "[C17.tworun] return values do not depend on allocation addresses or index slot order");
     let (px, wfx) = x.verif_check();
     let (py, wfy) = y.verif_check();
-    assert!(wfx && wfy && px == py, "[C17.tworun] eviction choices and recency order do not depend on allocation addresses or index slot order");
+    ck!(wfx && wfy && px == py, "[C17.tworun] eviction choices and recency order do not depend on allocation addresses or index slot order");
     let cx = x.clone();
-    assert!(cx.verif_abs() == py, "[C17.tworun][C16.order] a clone of one run equals the other run");
+    ck!(cx.verif_abs() == py, "[C17.tworun][C16.order] a clone of one run equals the other run");
     core::mem::forget(x);
     core::mem::forget(y);
     core::mem::forget(cx);
@@ -334,12 +348,12 @@ fn from_iterator_never_panics() {
         1 => (Some((k1, v1)).into_iter().collect(), 1),
         _ => (RawLRU::from([(k1, v1), (k2, v2)]), 2),
     };
-    assert!(l.len() <= n && (n == 0 || l.len() >= 1), "[C05.from] a conversion never panics and retains at most the given pairs");
+    ck!(l.len() <= n && (n == 0 || l.len() >= 1), "[C05.from] a conversion never panics and retains at most the given pairs");
     if which == 1 {
-        assert!(l.peek(&k1) == Some(&v1), "[C05.from][C02.value] a single pair is resident with its value");
+        ck!(l.peek(&k1) == Some(&v1), "[C05.from][C02.value] a single pair is resident with its value");
     }
     if which == 2 {
-        assert!(l.peek(&k2) == Some(&v2), "[C05.from][C02.value] the last pair given is resident with its value");
+        ck!(l.peek(&k2) == Some(&v2), "[C05.from][C02.value] the last pair given is resident with its value");
     }
     core::mem::forget(l);
 }
@@ -354,16 +368,16 @@ fn ctor_default_hasher_variants() {
     let cap: usize = kani::any();
     match RawLRU::<u8, u8>::new(cap) {
         Ok(l) => {
-            assert!(cap != 0 && l.cap() == cap && l.len() == 0 && l.verif_wf(), "[C05.ctor][C01.cap] new(cap) gives an empty well-formed cache of that capacity");
+            ck!(cap != 0 && l.cap() == cap && l.len() == 0 && l.verif_wf(), "[C05.ctor][C01.cap] new(cap) gives an empty well-formed cache of that capacity");
             core::mem::forget(l);
         }
-        Err(e) => assert!(cap == 0 && e == CacheError::InvalidSize(0), "[C05.ctor] new rejects exactly capacity 0 with InvalidSize(0)"),
+        Err(e) => ck!(cap == 0 && e == CacheError::InvalidSize(0), "[C05.ctor] new rejects exactly capacity 0 with InvalidSize(0)"),
     }
     match RawLRU::<u8, u8, DefaultEvictCallback>::with_on_evict_cb(cap, DefaultEvictCallback) {
         Ok(l) => {
-            assert!(cap != 0 && l.cap() == cap && l.len() == 0 && l.verif_wf(), "[C05.ctor][C15.ctor] with_on_evict_cb(cap, cb) gives an empty well-formed cache of that capacity");
+            ck!(cap != 0 && l.cap() == cap && l.len() == 0 && l.verif_wf(), "[C05.ctor][C15.ctor] with_on_evict_cb(cap, cb) gives an empty well-formed cache of that capacity");
             core::mem::forget(l);
         }
-        Err(e) => assert!(cap == 0 && e == CacheError::InvalidSize(0), "[C05.ctor] with_on_evict_cb rejects exactly capacity 0 with InvalidSize(0)"),
+        Err(e) => ck!(cap == 0 && e == CacheError::InvalidSize(0), "[C05.ctor] with_on_evict_cb rejects exactly capacity 0 with InvalidSize(0)"),
     }
 }
